@@ -166,8 +166,10 @@ func (e WorkloadGenerator) generateDeltasOndemand(
 
 	if len(addresses) == 0 {
 		if isReq {
-			// We need to respond for requests, even if we have nothing to respond with
-			return make(model.Resources, 0), nil, model.XdsLogDetails{}, false, nil
+			// We need to respond for requests, even if we have nothing to respond with.
+			// This is a delta answer: reporting it as a full-state one would make pushDeltaXds remove
+			// every resource the client still watches.
+			return make(model.Resources, 0), nil, model.XdsLogDetails{}, true, nil
 		}
 		// For NOP pushes, no need
 		return nil, nil, model.XdsLogDetails{}, false, nil
